@@ -458,8 +458,15 @@ func (g *gen) body(n, d int, dump bool) {
 func (g *gen) stmtIf(d int) {
 	g.feat("if")
 	cond := g.boolExpr(2)
-	if g.chance(12) {
-		// if with an init statement
+	inLoop := false
+	for _, c := range g.fc.ctl {
+		if c.kind == cxLoop {
+			inLoop = true
+		}
+	}
+	if g.chance(12) && !(inLoop && g.avoided("loopvar-capture:continue-in-if-init")) {
+		// if with an init statement (not inside a loop while the known finding is listed: a continue
+		// executed under an if-init corrupts the captured per-iteration loop variable)
 		t := g.intType()
 		name := g.fresh("v")
 		e := g.expr(t, 1)
@@ -1301,9 +1308,11 @@ func (g *gen) stmtAppend() {
 	s.used = true
 	n := 1 + g.pick(2)
 	var es []string
+	g.inCollection++
 	for i := 0; i < n; i++ {
 		es = append(es, g.expr(s.t.elem, 1))
 	}
+	g.inCollection--
 	g.feat("append")
 	g.line("%s = append(%s, %s)", s.name, s.name, strings.Join(es, ", "))
 }
